@@ -98,7 +98,6 @@ Fixpoint dedup_ids (l : list mhk) (seen : list N) : list mhk :=
   | [] => []
   | k :: r => if mem_N (mid k) seen then dedup_ids r seen else k :: dedup_ids r (mid k :: seen)
   end.
-Definition has_dup (l : list mhk) : bool := negb (Nat.eqb (length (dedup_ids l [])) (length l)).
 Definition set_add (s ks : list mhk) : list mhk :=
   s ++ dedup_ids (filter (fun k => negb (has_id (mid k) s)) ks) [].
 Definition set_del (s ks : list mhk) : list mhk := filter (fun k => negb (has_id (mid k) ks)) s.
@@ -106,13 +105,11 @@ Definition ids_sorted (l : list mhk) : list N := sort_N (map mid l).
 Definition lookup_ids (dict : list mhk) (ids : list N) : list mhk :=
   dedup_ids (filter (fun k => mem_N (mid k) ids) dict) [].
 
-Record sst := { sp_set : option (list mhk); sp_dict : list mhk; sp_size_trust : bool; sp_poison : bool; sp_code : nat }.
+Record sst := { sp_set : option (list mhk); sp_dict : list mhk; sp_code : nat }.
 
-Definition worse (a b : nat) : nat := if Nat.eqb a 2 then 2 else if Nat.eqb b 0 then a else if Nat.eqb a 0 then b else Nat.min a b.
 
 Definition spec_step (st : sst) (o : op) (ob : step_obs) : sst :=
   let dict := match o with OPut ks _ | ODel ks _ => sp_dict st ++ ks | _ => sp_dict st end in
-  let dup := match o with OPut ks _ | ODel ks _ => has_dup ks | _ => false end in
   (* (new set, deviation of the result) *)
   let '(s', bad) :=
     match o, so_res ob with
@@ -150,23 +147,11 @@ Definition spec_step (st : sst) (o : op) (ob : step_obs) : sst :=
     | OCrash back, BNone => (match back with O => sp_set st | _ => None end, false)
     | _, _ => (sp_set st, true)   (* a result of the wrong shape *)
     end in
-  (* a failed operation makes the keystore recount; a counter spoilt by a call
-     with a repeated key stays wrong until then (Close persists it) *)
-  let poison := sp_poison st || dup in
-  let trust := match o, so_res ob with
-               | _, BErr => true
-               | OCrash _, _ => sp_size_trust st && negb poison  (* a spoilt persisted size may come back *)
-               | _, _ => sp_size_trust st && negb dup
-               end in
   let bad_size := match s' with
-                  | Some s => trust && negb (Z.eqb (so_size ob) (Z.of_nat (length s)))
+                  | Some s => negb (Z.eqb (so_size ob) (Z.of_nat (length s)))
                   | None => false
                   end in
-  let bad_now := bad || bad_size || (dup && match s' with
-                                           | Some s => negb (Z.eqb (so_size ob) (Z.of_nat (length s)))
-                                           | None => false end) in
-  let code := if bad_now then (if dup then 4 else 2) else 0 in
-  {| sp_set := s'; sp_dict := dict; sp_size_trust := trust; sp_poison := poison; sp_code := worse (sp_code st) code |}.
+  {| sp_set := s'; sp_dict := dict; sp_code := if Nat.eqb (sp_code st) 0 then (if bad || bad_size then 2 else 0) else sp_code st |}.
 
 Fixpoint spec_run (st : sst) (ops : list op) (obs : list step_obs) : nat :=
   match ops, obs with
@@ -175,7 +160,7 @@ Fixpoint spec_run (st : sst) (ops : list op) (obs : list step_obs) : nat :=
   | _, _ => 2
   end.
 Definition spec_verdict (c : pcase) : nat :=
-  spec_run {| sp_set := Some []; sp_dict := []; sp_size_trust := true; sp_poison := false; sp_code := 0 |} (p_ops c) (p_impl c).
+  spec_run {| sp_set := Some []; sp_dict := []; sp_code := 0 |} (p_ops c) (p_impl c).
 
 (* ---- part 2: resettable keystore ---------------------------------------- *)
 Definition dk (pb : nat) (v i : N) : skey := dkey pb (mk v i).
@@ -229,9 +214,7 @@ Inductive case := CaseP (c : pcase) | CaseR (c : rcase) | CaseSkip.
    1 = it meets the specification but differs from the model (only possible on
        operations with an injected failure, whose effect the property leaves open);
    2 = the property fails on the trace (specification violated, or the trace
-       differs from the proved model where the specification says nothing);
-   4 = as 2, and the first deviation is at a Put/Delete whose argument repeats a
-       key (the known failure of the in-call dedup map). *)
+       differs from the proved model where the specification says nothing). *)
 Definition verdict (c : case) : nat :=
   match c with
   | CaseP c =>
